@@ -981,7 +981,7 @@ class Interp:
         if isinstance(base, DictV):
             if isinstance(idx, Const) and idx.value in base.items:
                 return base.items[idx.value]
-            vals = list(base.items.values())
+            vals = [v for k, v in base.items.items() if k != "$key"]
             return self.domain.join_many(self, vals) if vals else TOP
         return TOP
 
@@ -1000,9 +1000,9 @@ class Interp:
             self.assign(g.target, self.elem_of(it, g.iter), inner, fn, node)
             for c in g.ifs:
                 self.eval(c, inner, fn)
-        self.eval(node.key, inner, fn)
+        k = self.eval(node.key, inner, fn)
         v = self.eval(node.value, inner, fn)
-        return DictV({"$dyn": v})
+        return DictV({"$dyn": v, "$key": k})
 
     def _comp(self, node, env, fn, elt, one_shot):
         inner = dict(env)
